@@ -137,6 +137,9 @@ def canonical(desc, v):
 
 
 def run(ctx, model):
+    from props import kernels
+    kernels.run_masks(ctx, model, "C02")
+    kernels.run_boolwin(ctx, model, "C02")
     rng = ctx.rng
     n = ctx.budget(80, 900)
     for i in range(n):
